@@ -7,11 +7,15 @@
    path q selects what p ++ q selects from the owner's document (the wrapper holds the node itself, C11).
    C18_writes_reach_the_document (C08_success_frame) and the list view (C19) are the theorems behind "changes
    made through the typed object are changes to the original document".
-   UNDISCHARGED: iterator-typed assignment raising SetError and the deprecated pprop / mprop are compared by
-   the correspondence only. *)
+   C18_stacked_property_*: a deprecated property stacked on an mprop, pprop(p2, mprop(p1, data)), reads the position
+   p1 ++ p2 of the current data (paths of keys and indices), which is also what the plain read of p1 ++ p2 answers:
+   the encoding the correspondence uses for stacked properties.
+   UNDISCHARGED: iterator-typed assignment raising SetError and the forwarding of the deprecated pprop / mprop to
+   get / get_match / set_ are compared by the correspondence only. *)
 From Coq Require Import List ZArith String Bool PArith.
 From TP Require Import Json PyPrim Machine Api Spec Mutate.
-From TP.proofs Require Import SpecLemmas MutateProofs.
+From TP Require Import SpecHas SpecSet.
+From TP.proofs Require Import SpecLemmas MutateProofs RefineBase Refine ApiTop StackedProp.
 Import ListNotations.
 
 Theorem C18_typed_access_composes : forall (P : Type) sev p q, ends_rec P p = false ->
@@ -26,3 +30,29 @@ Theorem C18_writes_reach_the_document : forall doc pm v x m doc',
               ((exists k, v = VKey k /\ data_name m = NStr k) \/ (exists z, v = VIdx z /\ data_name m = NInt z)).
 Proof. exact leaf_set_success_frame. Qed.
 Print Assumptions C18_writes_reach_the_document.
+
+Theorem C18_stacked_property_read : forall B H depth doc p1 p2 tr pm,
+  kipath p1 = true -> kipath p2 = true ->
+  fst (jget_match B H depth (SrcDoc doc) p1 false tr) = Ok (Some pm) ->
+  let r2 := fst (jget_match B H depth (SrcMatch pm) p2 false tr) in
+  (exists m2, r2 = Ok (Some m2) /\ lookup doc (p1 ++ p2) = Some (tdata m2)) \/
+  (r2 = Ok None /\ lookup doc (p1 ++ p2) = None) \/
+  (exists e, r2 = Exn e /\ budget_exn e = true).
+Proof. exact stacked_read. Qed.
+Print Assumptions C18_stacked_property_read.
+
+Theorem C18_stacked_property_source_missing : forall B H depth doc p1 p2 tr,
+  kipath p1 = true ->
+  fst (jget_match B H depth (SrcDoc doc) p1 false tr) = Ok None ->
+  lookup doc (p1 ++ p2) = None.
+Proof. exact stacked_read_missing. Qed.
+Print Assumptions C18_stacked_property_source_missing.
+
+Theorem C18_concatenated_read : forall B H depth doc p1 p2 tr,
+  kipath p1 = true -> kipath p2 = true ->
+  let r := fst (jget_match B H depth (SrcDoc doc) (p1 ++ p2) false tr) in
+  (exists m, r = Ok (Some m) /\ lookup doc (p1 ++ p2) = Some (tdata m)) \/
+  (r = Ok None /\ lookup doc (p1 ++ p2) = None) \/
+  (exists e, r = Exn e /\ budget_exn e = true).
+Proof. exact concatenated_read. Qed.
+Print Assumptions C18_concatenated_read.
